@@ -405,7 +405,7 @@ defvjp(anp.kron, partial(grad_kron, 0), partial(grad_kron, 1))
 
 def grad_transpose(ans, x, axes=None):
     if axes is not None:
-        axes = anp.argsort(axes)
+        axes = anp.argsort(onp.asarray(axes) % len(axes))  # inverse permutation; axes may mix negative and positive entries
     return lambda g: anp.transpose(g, axes)
 
 
